@@ -586,7 +586,7 @@ det_cancel_pending(det_t *d, int si, bool close_ctx)
 	slot_t *s = &d->s[si];
 	if (close_ctx) {
 		nng_ctx_close(s->j.c);
-	} else if (s->pending) {
+	} else if (s->pending && !atomic_load(&s->done)) {
 		nng_aio_cancel(s->aio);
 	}
 	if (s->pending) {
